@@ -46,6 +46,8 @@ NPQ_KERNELS = [
          self_attrs=[("_F", "VQ"), ("_pop_size", "N"), ("_t_F", "S1"), ("_F_min", "S1"), ("_F_max", "S1")]),
     dict(name="jDE_get_mutate_CR", file="optimizers/_jde.py", cls="jDE", func="_get_mutate_CR", params=[], ret="VQ",
          self_attrs=[("_CR", "VQ"), ("_pop_size", "N"), ("_t_CR", "S1")]),
+    # minmax_scale (C11): module-level function of utils/transformations.py
+    dict(name="Select_minmax_scale", file=T, cls=None, func="minmax_scale", params=[("data", "VQ")], ret="VQ"),
     # the mean squared error inside root_mean_square_error (C19): everything before the square root, which must still be taken of it
     dict(name="Metrics_mse", file="utils/_metrics.py", cls=None, func="root_mean_square_error", params=[("y_true", "VQ"), ("y_predict", "VQ")], ret="S1",
          until="rmse = np.sqrt(mean_squared_error)", returns="mean_squared_error"),
@@ -383,10 +385,14 @@ class TrQ:
                 if k in ("Q", "QT") and isinstance(e.right, ast.Constant) and isinstance(e.right.value, int) and e.right.value >= 0:
                     return f"(NpQ.map (fun a => a ^ {e.right.value}) {x})", k
                 raise NotRecognised("power " + ast.unparse(e))
-            op = {ast.Add: "+", ast.Sub: "-", ast.Mult: "*"}.get(type(e.op))
+            op = {ast.Add: "+", ast.Sub: "-", ast.Mult: "*", ast.Div: "/"}.get(type(e.op))
             if op is None:
                 raise NotRecognised("operator in " + ast.unparse(e))
             (a, ka), (b, kb) = self.E(e.left), self.E(e.right)
+            if op == "/" and not (ka == "VQ" and kb == "S1"):
+                raise NotRecognised("division other than vector / scalar")
+            if ka == "S1" and kb == "S1":
+                return f"({a} {op} {b})", "S1"
             if (ka, kb) == ("VQ", "VQ"):
                 return self.bind(f"NpQ.vzip (fun a b => a {op} b) {a} {b}"), "VQ"
             if ka == "VQ" and kb in ("S", "S1"):
@@ -409,6 +415,21 @@ class TrQ:
                 if k != "Q":
                     raise NotRecognised("sum of a non-array (or of a transposed one)")
                 return f"(NpQ.sumRows {x})", "V"
+            if isinstance(f, ast.Attribute) and f.attr in ("max", "min") and not e.args and not kw:
+                x, k = self.E(f.value)
+                if k != "VQ":
+                    raise NotRecognised("max/min of a non-vector")
+                return self.bind(f"NpQ.v{f.attr} {x}"), "S1"
+            if isinstance(f, ast.Attribute) and f.attr == "astype" and len(e.args) == 1 and ast.unparse(e.args[0]) == "np.float64" and not kw:
+                x, k = self.E(f.value)
+                if k != "VQ":
+                    raise NotRecognised("astype of a non-vector")
+                return x, "VQ"
+            if is_np(f, "ones_like") and len(e.args) == 1 and list(kw) == ["dtype"] and ast.unparse(kw["dtype"]) == "np.float64":
+                x, k = self.E(e.args[0])
+                if k != "VQ":
+                    raise NotRecognised("ones_like of a non-vector")
+                return f"({x}.map (fun _ => (1 : Rat)))", "VQ"
             if isinstance(f, ast.Attribute) and f.attr == "copy" and not e.args and not kw:
                 x, k = self.E(f.value)
                 if k != "VQ":
@@ -466,6 +487,21 @@ class TrQ:
                     raise NotRecognised("masked assignment of a non-vector")
                 t = self.bind(f"NpQ.maskScatter {v} {m} {x}")
                 self.lines.append(f"  let {v} := {t}")
+                continue
+            # if a == b: v = E1  else: v = E2   (two scalars compared; both branches assign the same name; neither branch can fail)
+            if isinstance(st, ast.If) and len(st.body) == 1 and len(st.orelse) == 1 and isinstance(st.test, ast.Compare) and len(st.test.ops) == 1 \
+                    and isinstance(st.test.ops[0], ast.Eq) and all(isinstance(b, ast.Assign) and len(b.targets) == 1 and isinstance(b.targets[0], ast.Name)
+                                                                    for b in (st.body[0], st.orelse[0])) and st.body[0].targets[0].id == st.orelse[0].targets[0].id:
+                (a, ka), (b, kb) = self.E(st.test.left), self.E(st.test.comparators[0])
+                if (ka, kb) != ("S1", "S1"):
+                    raise NotRecognised("condition kinds")
+                n0 = len(self.lines)
+                (x1, k1), (x2, k2) = self.E(st.body[0].value), self.E(st.orelse[0].value)
+                if len(self.lines) != n0 or k1 != k2 or k1 != "VQ":
+                    raise NotRecognised("branches of the conditional")
+                v = st.body[0].targets[0].id
+                self.lines.append(f"  let {v} := if {a} = {b} then {x1} else {x2}")
+                self.env[v] = k1
                 continue
             if not (isinstance(st, ast.Assign) and len(st.targets) == 1 and isinstance(st.targets[0], ast.Name)):
                 raise NotRecognised("statement " + ast.unparse(st)[:60])
